@@ -30,8 +30,8 @@ STYLES = {
     "C++": ["same", "next", "multi", "bracegroup", "qualified"],
     "C#": ["same", "next", "multi", "async", "generic-ret"],
     "Java": ["same", "next", "multi", "throws", "throws-multi", "throws-long"],
-    "JavaScript": ["same", "next", "multi", "bracegroup", "bracedefault", "async", "arrow", "arrow-async", "arrow-bare"],
-    "TypeScript": ["same", "next", "multi", "bracegroup", "bracegroup-semi", "rettype", "async", "arrow", "arrow-async"],
+    "JavaScript": ["same", "next", "multi", "bracegroup", "bracedefault", "async", "arrow", "arrow-async", "arrow-bare", "kw-own-line"],
+    "TypeScript": ["same", "next", "multi", "bracegroup", "bracegroup-semi", "rettype", "async", "arrow", "arrow-async", "kw-own-line"],
     "Python": ["same", "multi", "annot", "bracedefault", "async", "decorated"],
 }
 METHOD_STYLES = {
@@ -85,6 +85,9 @@ def header(lang, name, style, method=False):
         if style == "bracegroup":
             pp = "{ a, b }: { a: number, b: string }, c: number" if ts else "{ a, b }, c"
             return [f"function {name}({pp})"], (0, 0), "same", "}"
+        if style == "kw-own-line":
+            # the introducing keyword on a line of its own: the function starts there, its NAME is on the next line
+            return ["function", f"{name}({p1})"], (0, 0), "same", "}"
         if style == "bracegroup-semi":
             # members of an inline object type may be separated by ';' (statement terminators inside the parameter list)
             return [f"function {name}({{ a, b }}: {{ a: number; b?: string; }}, c: number): number"], (0, 0), "same", "}"
